@@ -81,11 +81,55 @@ func checkC16(c c16Case, rec *Rec) *Violation {
 	if c.Kind == "exception" || c.Kind == "engine" {
 		want = rules.CosmeticOptionAll &^ c16Disabled(c.Mods)
 	}
+	if c.Kind == "referrer-engine" {
+		// only document-level exceptions can be referrer rules here; others would match the request too
+		doc := false
+		for _, m := range c.Mods {
+			if m != "important" {
+				doc = true
+			}
+		}
+		if !doc {
+			return nil
+		}
+	}
 	sorted := append([]string{}, c.Mods...)
 	sort.Strings(sorted)
 	key := c.Kind + "|" + strings.Join(sorted, ",")
 
 	var got rules.CosmeticOption
+	switch c.Kind {
+	case "referrer-struct":
+		// no basic rule at all; the exception only matches the referrer
+		mr := rules.MatchingResult{DocumentRule: basic}
+		if g := mr.GetCosmeticOption(); g != rules.CosmeticOptionAll {
+			return viol(id, "C16:option-without-basic-rule", "no basic rule, referrer rule %q: GetCosmeticOption=%03b, want everything enabled", c16RuleText(c), g)
+		}
+		return nil
+	case "referrer-engine":
+		text := c16RuleText(c) + "\n##.generic\n"
+		st, err := filterlist.NewRuleStorage([]filterlist.RuleList{&filterlist.StringRuleList{ID: 1, RulesText: text}})
+		if err != nil {
+			return viol(id, "C16:harness", "storage: %v", err)
+		}
+		res := urlfilter.NewEngine(st).MatchRequest(rules.NewRequest("http://frame.other.example/", "http://example.org/", rules.TypeSubdocument))
+		if res.BasicRule != nil {
+			return viol(id, "C16:harness", "unexpected basic rule %q", res.BasicRule.Text())
+		}
+		if g := res.GetCosmeticOption(); g != rules.CosmeticOptionAll {
+			return viol(id, "C16:option-without-basic-rule", "request matched by no rule, referrer matched by %q: GetCosmeticOption=%03b, want everything enabled", c16RuleText(c), g)
+		}
+		return nil
+	case "with-replace-rules":
+		// other rule kinds in the verdict do not change what the exception disables
+		other, _ := rules.NewNetworkRule("||example.org^$important", 1)
+		mr := rules.MatchingResult{BasicRule: basic, ReplaceRules: []*rules.NetworkRule{other}, CspRules: []*rules.NetworkRule{other}, StealthRule: other}
+		w := rules.CosmeticOptionAll &^ c16Disabled(c.Mods)
+		if g := mr.GetCosmeticOption(); g != w {
+			return viol(id, "C16:option-mismatch", "exception %q with replace/csp/stealth rules present: GetCosmeticOption=%03b, reference %03b", c16RuleText(c), g, w)
+		}
+		return nil
+	}
 	if c.Kind == "engine" {
 		// through the engine: the document request itself is excepted
 		text := c16RuleText(c) + "\n##.generic\nexample.org##.specific\n"
@@ -160,7 +204,7 @@ func TestC16(t *testing.T) {
 		if shard() != 0 {
 			return nil
 		}
-		for _, kind := range []string{"exception", "engine", "block"} {
+		for _, kind := range []string{"exception", "engine", "block", "referrer-struct", "referrer-engine", "with-replace-rules"} {
 			for mask := 0; mask < 1<<len(c16Mods); mask++ {
 				c := c16Case{Kind: kind, Mods: c16Subset(mask)}
 				rec.Eval()
